@@ -37,7 +37,7 @@ func init() {
 			}
 			return []modeSpec{
 				{name: "es", n: n, perChild: n / 16, timeout: 20 * time.Minute},
-				{name: "es-chaos", n: n / 2, perChild: n / 32, timeout: 20 * time.Minute, env: []string{"VERIF_HOOK=chaos", "VERIF_HOOK_PROB=30", "VERIF_HOOK_MAXUS=50"}},
+				{name: "es-chaos", n: n / 2, perChild: n / 32, timeout: 20 * time.Minute, env: []string{"VERIF_HOOK=chaos", "VERIF_HOOK_PROB=30", "VERIF_HOOK_MAXUS=50", "VERIF_HOOK_LOCKUS=150"}},
 			}
 		},
 		run: func(c *caseCtx) caseResult {
@@ -287,9 +287,24 @@ func c12Life(c *caseCtx) (res caseResult) {
 		}
 		pid := e.Spawn(prod, "life", actor.WithID(id), actor.WithMaxRestarts(10), actor.WithRestartDelay(0))
 		script = append(script, "spawn life/"+id)
-		for d := 0; d < plans[i].dups; d++ {
-			e.Spawn(prod, "life", actor.WithID(id))
-			script = append(script, "duplicate spawn")
+		if i%2 == 0 {
+			for d := 0; d < plans[i].dups; d++ {
+				e.Spawn(prod, "life", actor.WithID(id))
+				script = append(script, "duplicate spawn")
+			}
+		} else {
+			// the duplicates race each other (and would race the original's registration if it were not there yet)
+			var dwg sync.WaitGroup
+			plans[i].dups *= 4
+			for d := 0; d < plans[i].dups; d++ {
+				dwg.Add(1)
+				go func() {
+					defer dwg.Done()
+					e.Spawn(prod, "life", actor.WithID(id))
+				}()
+			}
+			dwg.Wait()
+			script = append(script, fmt.Sprintf("%d concurrent duplicate spawns", plans[i].dups))
 		}
 		for k := 0; k < plans[i].crashes; k++ {
 			e.Send(pid, crashMsg{ID: k})
@@ -307,11 +322,46 @@ func c12Life(c *caseCtx) (res caseResult) {
 			script = append(script, "send to the dead")
 		}
 	}
+	// n concurrent spawns of one fresh id: exactly one start, n-1 duplicate-id events
+	nRace := 2 + r.Intn(10)
+	{
+		var rwg sync.WaitGroup
+		startCh := make(chan struct{})
+		for k := 0; k < nRace; k++ {
+			rwg.Add(1)
+			go func() {
+				defer rwg.Done()
+				<-startCh
+				e.Spawn(func() actor.Receiver { return &lifeActor{} }, "life", actor.WithID("raced"))
+			}()
+		}
+		close(startCh)
+		rwg.Wait()
+		script = append(script, fmt.Sprintf("%d concurrent spawns of the fresh id life/raced", nRace))
+	}
 	if !mon.flush(e, wd) {
 		res.inconclusive("marker did not come back")
 		return
 	}
 	evs := mon.snapshot()
+	{
+		started, dup := 0, 0
+		for _, x := range evs {
+			switch ev := x.(type) {
+			case actor.ActorStartedEvent:
+				if ev.PID.ID == "life/raced" {
+					started++
+				}
+			case actor.ActorDuplicateIdEvent:
+				if ev.PID.ID == "life/raced" {
+					dup++
+				}
+			}
+		}
+		if started != 1 || dup != nRace-1 {
+			res.violate("%d concurrent spawns of one fresh id published %d ActorStartedEvent(s) and %d ActorDuplicateIdEvent(s); expected 1 and %d", nRace, started, dup, nRace-1)
+		}
+	}
 	for i, pl := range plans {
 		id := "life/" + fmt.Sprint(i)
 		var started, stopped, dup, dead int
